@@ -33,15 +33,17 @@ type Call struct {
 	Names []string `json:"names,omitempty"` // elements / schemes / attribute names / property names
 	Re    string   `json:"re,omitempty"`    // value pattern (registry name or raw pattern)
 	// for AllowAttrs / AllowNoAttrs / AllowStyles
-	NoAttrs bool     `json:"noattrs,omitempty"` // AllowAttrs(...).AllowNoAttrs()
-	Scope   string   `json:"scope,omitempty"`   // on | matching | global
-	On      []string `json:"on,omitempty"`
-	OnRe    string   `json:"onre,omitempty"`
-	Enum    []string `json:"enum,omitempty"`
-	Handler string   `json:"handler,omitempty"` // registry name of a style handler
-	Bool    bool     `json:"bool,omitempty"`
-	Ints    []int    `json:"ints,omitempty"` // sandbox values
-	Fn      string   `json:"fn,omitempty"`   // registry name of URL policy / rewriter
+	NoAttrs bool `json:"noattrs,omitempty"` // AllowAttrs(...).AllowNoAttrs()
+	// NoAttrsFirst: chain as AllowAttrs(...).AllowNoAttrs().Matching(re) instead of .Matching(re).AllowNoAttrs()
+	NoAttrsFirst bool     `json:"noattrs_first,omitempty"`
+	Scope        string   `json:"scope,omitempty"` // on | matching | global
+	On           []string `json:"on,omitempty"`
+	OnRe         string   `json:"onre,omitempty"`
+	Enum         []string `json:"enum,omitempty"`
+	Handler      string   `json:"handler,omitempty"` // registry name of a style handler
+	Bool         bool     `json:"bool,omitempty"`
+	Ints         []int    `json:"ints,omitempty"` // sandbox values
+	Fn           string   `json:"fn,omitempty"`   // registry name of URL policy / rewriter
 	// FreshRe forces a newly compiled *regexp.Regexp (instead of the cached one)
 	// for OnRe / AllowElementsMatching, to exercise pointer-keyed tables.
 	FreshRe bool `json:"freshre,omitempty"`
@@ -188,10 +190,13 @@ func Apply(p *bluemonday.Policy, c Call) {
 			b = p.AllowNoAttrs()
 		} else {
 			ab := p.AllowAttrs(c.Names...)
+			if c.NoAttrs && c.NoAttrsFirst {
+				ab = ab.AllowNoAttrs()
+			}
 			if c.Re != "" {
 				ab = ab.Matching(Regexp(c.Re))
 			}
-			if c.NoAttrs {
+			if c.NoAttrs && !c.NoAttrsFirst {
 				ab = ab.AllowNoAttrs()
 			}
 			b = ab
